@@ -120,6 +120,9 @@ class Mode:
                     z = rng.random()
                     # coincident / on-axis values are part of the domain
                     v = 0.0 if z < dom.get("zero_prob", 0.08) else rng.uniform(-span, span)
+                    for pref, rngs in dom.get("real_by_prefix", {}).items():
+                        if name.startswith(pref):  # stress profiles: e.g. a common centre tens of bohr from the origin
+                            v = rng.uniform(rngs[0], rngs[1]) * (rng.choice((-1, 1)) if len(rngs) > 2 and rngs[2] else 1)
                     self.env[name] = Fraction(round(v, 6)).limit_denominator(10**6)
             else:
                 # symbols that do not occur in the failed obligation: deterministic filler values
